@@ -762,6 +762,13 @@ func entries() []entry {
 	return es
 }
 
+func max(a, b int) int {
+	if a > b {
+		return a
+	}
+	return b
+}
+
 func min(a, b int) int {
 	if a < b {
 		return a
@@ -926,6 +933,14 @@ type cyc struct {
 	Any  interface{}
 }
 
+type PP *PP
+
+type PNode struct {
+	Name string
+	I    *interface{}
+	Next *PNode
+}
+
 type badMarshaler struct{ s string }
 
 func (b badMarshaler) MarshalJSON() ([]byte, error) { return []byte(b.s), nil }
@@ -967,6 +982,30 @@ func goValues() {
 	c2 := &cyc{Name: "b"}
 	c2.Any = c2
 	try("cyclic-iface", c2)
+	// cycles made only of pointer-to-interface / pointer-to-own-type links: every dereference must push an encoder frame
+	var self interface{}
+	self = &self
+	try("cyclic-ptr-to-iface", self)
+	try("cyclic-ptr-to-iface-p", &self)
+	var ia, ib interface{}
+	ia, ib = &ib, &ia
+	try("cyclic-two-ifaces", ia)
+	var pp PP
+	pp = &pp
+	try("cyclic-self-pointer-type", pp)
+	try("cyclic-self-pointer-type-p", &pp)
+	pn := &PNode{Name: "n"}
+	var pni interface{} = pn
+	pn.I = &pni
+	try("cyclic-struct-ptr-iface", pn)
+	ps := []*interface{}{nil}
+	var psi interface{} = ps
+	ps[0] = &psi
+	try("cyclic-slice-ptr-iface", ps)
+	pm := map[string]*interface{}{}
+	var pmi interface{} = pm
+	pm["k"] = &pmi
+	try("cyclic-map-ptr-iface", pm)
 	var p interface{} = 1
 	for i := 0; i < 5000; i++ {
 		p = []interface{}{p}
@@ -1373,6 +1412,43 @@ func runProgLen() {
 				el = strings.Count(txt, "\n") + 1
 			}
 			w.Line("L", kind, out.Itoa(d), out.Itoa(dl), out.Itoa(el))
+		}
+	}
+	// the encoder IR: every dereference is bracketed by a state-stack frame (save ... deref ... drop), so that a cycle through
+	// pointers always runs into the depth limit
+	for _, t := range []reflect.Type{
+		reflect.TypeOf((*interface{})(nil)), reflect.TypeOf((**interface{})(nil)), reflect.TypeOf(PP(nil)), reflect.TypeOf((*PP)(nil)),
+		reflect.TypeOf(&PNode{}), reflect.TypeOf(PNode{}), reflect.TypeOf([]*interface{}{}), reflect.TypeOf(map[string]*interface{}{}),
+		reflect.TypeOf(&cyc{}), reflect.TypeOf([]*cyc{}), reflect.TypeOf((*[]interface{})(nil)), reflect.TypeOf((*map[string]interface{})(nil)),
+		reflect.TypeOf(struct{ A *int; B *string; C *[]*PNode }{}),
+	} {
+		for _, pv := range []bool{false, true} {
+			txt, err := verifx.EncDumpProgram(t, pv, option.DefaultCompileOptions(), name)
+			if err != nil {
+				w.Line("D", t.String(), fmt.Sprint(pv), "error", err.Error())
+				continue
+			}
+			lines := strings.Split(strings.TrimSpace(txt), "\n")
+			bad, derefs, saves, drops := "", 0, 0, 0
+			for i, l := range lines {
+				op := strings.Fields(l + " x")[0]
+				switch op {
+				case "save":
+					saves++
+				case "drop", "drop_2":
+					drops++
+				case "deref":
+					derefs++
+					if i == 0 || strings.Fields(lines[i-1] + " x")[0] != "save" {
+						bad = fmt.Sprintf("deref at %d is not preceded by save (previous: %q)", i, lines[max(i-1, 0)])
+					}
+				}
+			}
+			st := "ok"
+			if bad != "" {
+				st = "bad"
+			}
+			w.Line("D", t.String(), fmt.Sprint(pv), st, fmt.Sprintf("derefs=%d saves=%d drops=%d %s", derefs, saves, drops, bad))
 		}
 	}
 	// first-use wall time of the real entry points for a 12-fold nested slice (fresh types: never compiled before)
